@@ -41,6 +41,8 @@ def s_own(v):
     elif ck == 2:
         fs.add_dir('sub/c')
     fs.add_file('sub/files/x', size=1, digest='x')
+    fs.add_file('subx/k', size=1, digest='k')
+    fs.add_file('sub.conf', size=1, digest='j')
     fs.add_file('ig/q', size=1, digest='q')
     fs.add_file('sub/ig2/r', size=1, digest='r')
     if v.bool('new_file'):
@@ -53,6 +55,7 @@ def s_own(v):
            mk('IGNORE', 'gone'), mk('IGNORE', 'sub/gone2'),
            mk('DATA', 'a', 2, MD5=md5('A')),
            mk('MISC', 'oth/m', 3, MD5=md5('M')), mk('EBUILD', 'oth/e', 2, MD5=md5('e')),
+           mk('DATA', 'subx/k', 1, MD5=md5('k')), mk('DATA', 'sub.conf', 1, MD5=md5('j')),
            mk('MANIFEST', 'sub/Manifest', 6, MD5=md5('S'))]
     fs.add_manifest('Manifest', top)
     c.mode = v.choice('mode', 3)        # 0 verify+lookups, 1 update w/o save, 2 update+save
